@@ -95,12 +95,15 @@ Theorem chain_rule_second_order : forall (G Gi : (nat -> R) -> R) (f1 : R -> R) 
   partial (fun z => Gi z * f1 (G z)) j y (Gi y * dGj * f2 + ddGij * f1 (G y)).
 Proof. exact chain1_second. Qed.
 
-(* defects of the unchanged library exhibited by the model (known findings) *)
-Theorem set_order_refuted : set_reg (FlR Sp0) idR 0 (Rg 1) st_setord = Panic EIndex.
-Proof. exact set_order_before_alloc_refuted. Qed.
-Theorem abs_concrete_sign_refuted :
-  exists s', do_ABS_concrete (FlR Sp0) idR 0 (Rg 1) st_absc = Ok s' /\ rval (s' 0%nat) = -2.
-Proof. exact abs_concrete_refuted. Qed.
+(* former defects (fixed in /repo: d9fca78, 2fc8894): the witnesses now behave on the model *)
+Theorem set_order_witness_behaves :
+  exists s', set_reg (FlR Sp0) idR 0 (Rg 1) st_setord = Ok s' /\
+             rorder (s' 0%nat) = 2%nat /\ rn (s' 0%nat) = 2%nat /\ rval (s' 0%nat) = 3 /\
+             rderiv (s' 0%nat) = [0; 1] /\ rhess (s' 0%nat) = [[0; 0]; [0; 5]].
+Proof. exact set_order_witness_fixed. Qed.
+Theorem concrete_abs_is_generic_abs : forall S c a (s : St),
+  do_ABS_concrete (FlR S) idR c a s = do_abs (FlR S) idR c a s.
+Proof. exact abs_concrete_is_abs. Qed.
 
 (* Not proved (stated for the record):
    ad_sound_partial — soundness of whole expression trees by structural induction from
